@@ -96,6 +96,12 @@ func run(p *analysis.Pass) (map[*ast.FuncLit]*FuncLitInfo, error) {
 		})
 
 		for funcLit, vars := range closureMap {
+			if sig, ok := pass.TypesInfo.TypeOf(funcLit).(*types.Signature); ok && sig.Variadic() && len(vars) > 0 {
+				// The closure variables become extra parameters after the declared ones, which cannot be expressed
+				// for a variadic function (its last parameter must stay the variadic one, and extra arguments at
+				// call sites belong to it). Such function literals are not supported: leave them unanalyzed.
+				continue
+			}
 			fakeDecl, fakeType := createFakeFuncDecl(pass, funcLit, vars)
 
 			funcLitMap[funcLit] = &FuncLitInfo{
